@@ -100,13 +100,18 @@ class Sym:
     def _project(self, base, proj, depth):
         for e in proj:
             if e == "*":
-                if base.startswith("&"):
+                ms = re.fullmatch(r"<std::string::String as std::ops::Deref>::deref\(&(.*)\)", base)
+                if ms and ms.group(1).count("(") == ms.group(1).count(")"):
+                    # `&*s.deref()` names the same text as `&s` (the String seen as a str)
+                    base = ms.group(1)
+                elif base.startswith("&"):
                     base = base[1:]
                 else:
                     base = "*" + base
             elif isinstance(e, dict):
                 if "f" in e:
-                    el = _tuple_elem(base, e["f"]) if base.startswith("tuple{") and base.endswith("}") else None
+                    # tuples, and the environment of a closure whose body was inlined at a direct call (`agg{captures}`)
+                    el = _tuple_elem(base, e["f"]) if base.startswith(("tuple{", "agg{")) and base.endswith("}") else None
                     if el is not None:
                         base = el
                         continue
@@ -353,7 +358,7 @@ def _short(name):
 
 def _tuple_elem(base, k):
     """k-th element of a symbolic tuple aggregate 'tuple{a,b,...}' (top-level commas only)"""
-    inner = base[6:-1]
+    inner = base[base.index("{") + 1:-1]
     parts, depth, cur, prev = [], 0, "", ""
     for ch in inner:
         if ch in "([{<":
